@@ -355,3 +355,54 @@ Proof.
     + rewrite IH by assumption.
       replace (@gtb0 QcK (snd s)) with false by (symmetry; exact E). cbn [andb]. change (T QcK) with Qc. ring.
 Qed.
+
+(* ---------- the posterior is additive over the occurrence list (chunks, and the multiset driver's per-document sum) ---------- *)
+
+Definition em_run (indices indptr : list nat) (prior : list Qc) (n : nat) (post : list Qc) (occs : list (occurrence QcK)) : list Qc :=
+  fold_left (fun post o => @em_update QcK post indices indptr prior n o) occs post.
+
+Lemma em_update_length : forall (post : list Qc) indices indptr prior n o,
+  length (@em_update QcK post indices indptr prior n o) = length post.
+Proof. intros. unfold em_update, em_update_gen. apply (em_write_length QcK). Qed.
+
+Lemma em_run_length : forall indices indptr prior n occs (post : list Qc),
+  length (em_run indices indptr prior n post occs) = length post.
+Proof.
+  intros indices indptr prior n occs. unfold em_run. induction occs as [|o occs IH]; intros post; cbn [fold_left]; [reflexivity|].
+  rewrite IH. apply em_update_length.
+Qed.
+
+Lemma nth_repeat_zero : forall n j, nth j (repeat (Q2Qc 0) n) 0 = 0.
+Proof. induction n; intros j; destruct j; simpl; auto. Qed.
+
+Lemma em_update_additive : forall (post : list Qc) indices indptr prior n o j, (j < length post)%nat ->
+  nth j (@em_update QcK post indices indptr prior n o) 0 =
+  nth j post 0 + nth j (@em_update QcK (repeat 0 (length post)) indices indptr prior n o) 0.
+Proof.
+  intros post indices indptr prior n o j Hj. unfold em_update, em_update_gen.
+  rewrite !em_write_nth by (rewrite ?repeat_length; assumption). rewrite nth_repeat_zero. change (T QcK) with Qc. ring.
+Qed.
+
+Lemma em_run_additive : forall indices indptr prior n occs (post : list Qc) j, (j < length post)%nat ->
+  nth j (em_run indices indptr prior n post occs) 0 =
+  nth j post 0 + nth j (em_run indices indptr prior n (repeat 0 (length post)) occs) 0.
+Proof.
+  intros indices indptr prior n occs. induction occs as [|o occs IH]; intros post j Hj.
+  - unfold em_run. cbn [fold_left]. rewrite nth_repeat_zero. change (T QcK) with Qc. ring.
+  - unfold em_run in *. cbn [fold_left].
+    rewrite IH by (rewrite em_update_length; assumption).
+    rewrite (IH (@em_update QcK (repeat 0 (length post)) indices indptr prior n o)) by (rewrite em_update_length, repeat_length; assumption).
+    rewrite !em_update_length, repeat_length. rewrite (em_update_additive post) by assumption. change (T QcK) with Qc. ring.
+Qed.
+
+Theorem em_iteration_app : forall indices indptr (prior : list Qc) n occsA occsB j, (j < length prior)%nat ->
+  nth j (@em_iteration QcK indices indptr prior n (occsA ++ occsB)) 0 =
+  nth j (@em_iteration QcK indices indptr prior n occsA) 0 + nth j (@em_iteration QcK indices indptr prior n occsB) 0.
+Proof.
+  intros indices indptr prior n occsA occsB j Hj. unfold em_iteration. rewrite fold_left_app.
+  change (nth j (em_run indices indptr prior n (em_run indices indptr prior n (repeat 0 (length prior)) occsA) occsB) 0 =
+          nth j (em_run indices indptr prior n (repeat 0 (length prior)) occsA) 0 +
+          nth j (em_run indices indptr prior n (repeat 0 (length prior)) occsB) 0).
+  rewrite em_run_additive by (rewrite em_run_length, repeat_length; assumption).
+  rewrite em_run_length, repeat_length. reflexivity.
+Qed.
